@@ -363,10 +363,14 @@ func (m *Module) validateFunctions(enabledFeatures api.CoreFeatures, functions [
 	br := bytes.NewReader(nil)
 	// Also, we reuse the stacks across multiple function validations to reduce allocations.
 	vs := &stacks{}
+	// Check every type index before validating any body: validating a call in an
+	// earlier body looks up the type of the callee, which may be a later function.
 	for idx, typeIndex := range m.FunctionSection {
 		if typeIndex >= typeCount {
 			return fmt.Errorf("invalid %s: type section index %d out of range", m.funcDesc(SectionIDFunction, Index(idx)), typeIndex)
 		}
+	}
+	for idx := range m.FunctionSection {
 		c := &m.CodeSection[idx]
 		if c.GoFunc != nil {
 			continue
